@@ -262,6 +262,10 @@ class World:
             if len(c2) >= 1 and len(set(h[1] for h in c2)) == 1: cands = c2[:1]
         if not cands: return None
         if len(set(h[1] for h in cands)) > 1:
+            # items nested inside a method body (e.g. serde's __SerializeWith helper impls) carry the outer name as a prefix
+            outer = [h for h in cands if all(o[1] == h[1] or o[1].startswith(h[1] + '::') for o in cands)]
+            if outer: cands = outer[:1]
+        if len(set(h[1] for h in cands)) > 1:
             raise Unsupported('ambiguous method %s::%s (trait %s): %s' % (sty, meth, trait, [h[1] for h in cands][:5]))
         return cands[0][:2]
 
